@@ -135,7 +135,11 @@ pub fn emit(ev: &str, f: impl FnOnce(&mut Fields)) {
         let line = format!("{{\"seq\":{},\"ev\":\"{}\"{}}}", sink.seq, ev, fields.0);
         sink.events.push(line);
         match sink.budget {
-            Some(b) if sink.seq > b => Some(sink.seq),
+            Some(b) if sink.seq > b => {
+                // lift the budget: events emitted while unwinding must not panic again
+                sink.budget = None;
+                Some(sink.seq)
+            }
             _ => None,
         }
     });
